@@ -8,6 +8,7 @@ vc:     bk_encoding.encode for strings of ARBITRARY length: success iff every ch
         (comprehension contract + two loop contracts with variants); bk_encoding.decode pointwise
         types.CharLiteral.resolve turns the encoding error into an 'invalid-character' report
 """
+import os
 import z3
 from contracts.common import *  # noqa
 from contracts import common
@@ -272,6 +273,40 @@ def unit_bk_filename(eng):
     return verify(eng, "metacommands.encode_bk_filename[bk]", run, post, func="metacommands.encode_bk_filename")
 
 
+def unit_include_path(eng=None, tree=None):
+    """the same string in an INCLUDED file: source files are UTF-8 whatever the locale of the process (the command line reads the main file
+    as UTF-8 explicitly); run through the real CLI under the default environment and under an ASCII-only locale"""
+    import subprocess
+    import tempfile
+    import shutil
+    tree = tree or driver.tree_root()
+    text = "\u041f\u0440\u0438\u0432\u0435\u0442, \u043c\u0438\u0440 Az"
+    want = None
+    bad, n = [], 0
+    d = tempfile.mkdtemp(prefix="pyvc-c14-inc-")
+    try:
+        open(os.path.join(d, "inc.mac"), "w", encoding="utf-8").write('.ascii "%s"\n' % text)
+        open(os.path.join(d, "main.mac"), "w", encoding="utf-8").write('.include "inc.mac"\n.ascii "%s"\n' % text)
+        for envname, extra in (("default", {}), ("LC_ALL=C, PYTHONUTF8=0", dict(LC_ALL="C", LANG="C", PYTHONUTF8="0", PYTHONCOERCECLOCALE="0")), ("LC_ALL=POSIX", dict(LC_ALL="POSIX", PYTHONCOERCECLOCALE="0", PYTHONUTF8="0"))):
+            env = {k: v for k, v in os.environ.items() if k not in ("LC_ALL", "LANG", "PYTHONUTF8", "PYTHONCOERCECLOCALE", "LC_CTYPE")}
+            env.update(extra)
+            out = os.path.join(d, "out.raw")
+            if os.path.exists(out):
+                os.remove(out)
+            p = subprocess.run(["/venv/bin/python", "-c", "import sys; sys.path.insert(0, %r); sys.argv = ['pdpy11'] + sys.argv[1:]; from pdpy11._cli import main_cli; main_cli()" % tree,
+                                "main.mac", "-o", "out.raw"], cwd=d, capture_output=True, env=env, timeout=120)
+            n += 1
+            got = open(out, "rb").read().hex() if os.path.exists(out) else None
+            exp = (text.encode("koi8-r") * 2).hex()      # the property: ASCII below 0x7F, KOI8-R for the Cyrillic letters
+            if p.returncode != 0 or got != exp:
+                bad.append([envname, "exit %d" % p.returncode, got, "expected " + exp, p.stderr.decode("utf-8", "replace")[-200:]])
+    finally:
+        shutil.rmtree(d, ignore_errors=True)
+    ob = dict(label="a-string-in-an-included-file-assembles-to-the-same-table-bytes-as-in-the-main-file-under-every-locale", kind="rac", status="proved" if n and not bad else "failed", secs=0.0, path=[],
+              witness=None, detail=str(bad[:3])[:1500], events=[], smt2=None, backend="cpython-native", unit="include-path", func="metacommands.include (run-time check)", cases=n, cfg=dict(kind="include-path"))
+    return dict(unit="include-path", func="metacommands.include (run-time check)", paths=n, obligations=[ob], wall=0.0)
+
+
 def unit_rac(eng, tier="quick"):
     """run-time check: error positions on random strings mixing encodable and unencodable characters"""
     import os
@@ -403,7 +438,7 @@ result = [n, len(cps), bad]
 
 
 def units(tier):
-    return [("tables", "unit_closed", {}), ("encode", "unit_encode", {}), ("decode", "unit_decode", {}), ("charliteral", "unit_charliteral", {}), ("bk_filename", "unit_bk_filename", {}),
+    return [("tables", "unit_closed", {}), ("encode", "unit_encode", {}), ("decode", "unit_decode", {}), ("charliteral", "unit_charliteral", {}), ("bk_filename", "unit_bk_filename", {}), ("include-path", "unit_include_path", {}),
             ("rac", "unit_rac", dict(tier=tier)), ("string-path", "unit_string_path", dict(tier=tier)), ("QuotedString", "unit_quoted_string", {})]
 
 
@@ -422,6 +457,8 @@ def replay(o, tree):
     cfg = o.get("cfg") or {}
     if o.get("kind") == "bounded":
         return None          # evaluated on the real assembler already: the failing characters are in the obligation's detail
+    if cfg.get("kind") == "include-path":
+        return None          # the real CLI was run: the failing environment and output are in the obligation's detail
     probes = ["abc", "\u20acabc", "ab\u20ac", "a\u20acb\u4e2dc", "\u4e2d", "\u044f\u0411", "a\u20ac", "\u20ac\u20ac", "\x7f", "\u25a0", "\u00a4$"]
     code = "from pdpy11 import bk_encoding as bk\nres = []\nfor s in %r:\n    try:\n        res.append(['ok', s.encode('bk').hex()])\n    except UnicodeEncodeError as ex:\n        res.append(['err', ex.start, ex.end])\nresult = res\n" % (probes,)
     r = driver.native([{"kind": "py", "code": code}], tree)[0]
